@@ -27,3 +27,16 @@ Definition sync_typed (p : proto) (m : mode) (tmo : bool) (st : cstate) (req : r
   (match r with TRErr c => TRErr (with_timeout tmo c) | _ => r end, st').
 
 Definition sync_set_slave := set_slave.
+
+(* the blocking context: the async context plus the timeout applied to every subsequent operation
+   (given at connect time, changed by set_timeout / reset_timeout, read back by timeout()) *)
+Record sctx := mkS { s_client : cstate; s_timeout : option N }.
+Definition sync_connect_ctx (p : proto) (slave : option N) (tmo : option N) : sctx := mkS (sync_connect p slave) tmo.
+Definition sync_set_timeout (c : sctx) (t : option N) : sctx := mkS (s_client c) t.
+Definition sync_reset_timeout (c : sctx) : sctx := mkS (s_client c) None.
+Definition timed (c : sctx) : bool := match s_timeout c with Some _ => true | None => false end.
+Definition sctx_call (p : proto) (m : mode) (c : sctx) (req : request) : call_result * sctx :=
+  let '(r, st') := sync_call p m (timed c) (s_client c) req in (r, mkS st' (s_timeout c)).
+Definition sctx_typed (p : proto) (m : mode) (c : sctx) (req : request) : typed_result * sctx :=
+  let '(r, st') := sync_typed p m (timed c) (s_client c) req in (r, mkS st' (s_timeout c)).
+Definition sctx_set_slave (c : sctx) (s : N) : sctx := mkS (sync_set_slave (s_client c) s) (s_timeout c).
